@@ -109,6 +109,16 @@ inline bool flush_F(Rng& r, uint64_t idx)
   // through them) must still return with the caller's own statements written. The cross-thread clause is only
   // demanded between system-clock loggers (the property limits it to system / TSC clocks).
   if (r.chance(1, 4)) w.user_clock_mask = static_cast<uint32_t>(r.range(1, 15));
+  // one scenario in five stamps with rdtsc (the library default) on EVERY logger, file logger included: the property
+  // names the TSC clock for the cross-thread clause. One clock source per scenario, a grace period well above any
+  // cross-core TSC skew, and no resynchronisation of the backend's RdtscClock while the scenario runs (as in order_F).
+  bool const tsc = !w.user_clock_mask && r.chance(1, 4);
+  if (tsc)
+  {
+    w.tsc_mask = 0xffffffffu;
+    w.bo.rdtsc_resync_interval = std::chrono::hours{1};
+    w.bo.log_timestamp_ordering_grace_period = std::chrono::microseconds{r.pick({50, 1000})};
+  }
   make_topology(w, r, 3, 4);
   // a real file sink on an extra logger
   std::string const file_path = g_dir + "/" + w.tag + ".log";
@@ -131,7 +141,8 @@ inline bool flush_F(Rng& r, uint64_t idx)
     auto fs_sink = Fe::create_or_get_sink<quill::FileSink>(file_path, fc, fen);
     LoggerDef d;
     d.name = w.tag + "_zfile"; // sorts after the other loggers: its sink is flushed after theirs
-    d.lg = Fe::create_or_get_logger(d.name, fs_sink, quill::PatternFormatterOptions{"%(message)"}, quill::ClockSourceType::System);
+    d.lg = Fe::create_or_get_logger(d.name, fs_sink, quill::PatternFormatterOptions{"%(message)"}, tsc ? quill::ClockSourceType::Tsc : quill::ClockSourceType::System);
+    d.tsc = tsc;
     d.lg->set_log_level(quill::LogLevel::TraceL3);
     file_logger = static_cast<int>(w.loggers.size());
     w.loggers.push_back(d); // no recording sinks
@@ -208,6 +219,7 @@ inline bool flush_F(Rng& r, uint64_t idx)
   quill::Backend::stop();
   g_delay.store(0);
   stat_add("flush_scenarios");
+  if (tsc) stat_add("flush_scenarios_with_tsc_loggers");
   stat_add("flush_calls_checked", static_cast<long long>(flushes.load()));
   stat_add("own_statements_demanded", static_cast<long long>(checked_own.load()));
   stat_add("other_thread_statements_demanded", static_cast<long long>(checked_others.load()));
